@@ -30,7 +30,7 @@ VARIANTS = {
                                     '-fno-sanitize-recover=all']),
     'tsan': dict(cxx='g++', flags=['-O1', '-fsanitize=thread']),
     'plain': dict(cxx='g++', flags=['-O1']),
-    'fuzz': dict(cxx='clang++-14', flags=['-O1', '-fsanitize=fuzzer,address,undefined', '-fno-sanitize=object-size',
+    'fuzz': dict(cxx='clang++-14', flags=['-O1', '-fsanitize=fuzzer,address,undefined', '-fno-sanitize=object-size,pointer-overflow',
                                           '-fno-sanitize-recover=all']),
 }
 
